@@ -1394,13 +1394,29 @@ class PackBasedObjectStore(PackCapableObjectStore, PackedObjectContainer):
 
     def __iter__(self) -> Iterator[ObjectID]:
         """Iterate over the SHAs that are present in this store."""
-        self._update_pack_cache()
-        for pack in self._iter_cached_packs():
-            try:
-                yield from pack
-            except PackFileDisappeared as exc:
-                self._evict_pack(exc.obj)
+        # Loose objects first: a concurrent repack moves objects from loose
+        # storage into a pack, never the other way round, so whatever
+        # vanishes from the loose listing shows up in the pack scan below.
         yield from self._iter_loose_objects()
+        # If a pack disappears while we iterate (it was consolidated into a
+        # new one), rescan to pick up the pack that replaced it.
+        done: set[str] = set()
+        for _attempt in range(_MAX_PACK_RESCAN_ATTEMPTS):
+            self._update_pack_cache()
+            disappeared = False
+            for base_name, pack in list(self._pack_cache.items()):
+                if base_name in done:
+                    continue
+                try:
+                    shas = list(pack)
+                except PackFileDisappeared as exc:
+                    self._evict_pack(exc.obj)
+                    disappeared = True
+                    continue
+                done.add(base_name)
+                yield from shas
+            if not disappeared:
+                break
         yield from self._iter_alternate_objects()
 
     def contains_loose(self, sha: ObjectID) -> bool:
